@@ -179,7 +179,12 @@ pub fn build_tree(r: &RawTree, root_abs: &Path) -> Tree {
                 }
                 let mut lines: Vec<Ln> = vec![];
                 match t % 12 {
-                    0 | 1 => lines.push(Ln::st(St::Data(DKind::Dw, vec![DItem::Ex(E::Num(0x1000 + k as i64))]))),
+                    0 => lines.push(Ln::st(St::Data(DKind::Dw, vec![DItem::Ex(E::Num(0x1000 + k as i64))]))),
+                    // the location counter as an operand: it is the address of this very item, wherever the
+                    // neighbouring lines come from (the last line of one file and the next line of another
+                    // often carry the same line number)
+                    1 if a % 2 == 0 => lines.push(Ln::st(St::Ins("rjmp".into(), vec![Opnd::Ex(E::Pc)]))),
+                    1 => lines.push(Ln::st(St::Data(DKind::Dw, vec![DItem::Ex(E::Pc), DItem::Ex(E::Num(0x1000 + k as i64))]))),
                     2 => {
                         lines.push(Ln::with_label(&format!("lab_{}", k), St::Ins("nop".into(), vec![])));
                         defined_labels.push((k, cur));
